@@ -30,7 +30,15 @@ def run(ctx):
     thorough = ctx.tier == "thorough"
     out = ctx.path("mutants.ndjson")
     n = 400000 if thorough else 30000
-    ctx.vhrun(["c22-run", str(n), out, os.path.join(vlib.VERIF, "corpus", "C22")], timeout=3400)
+    # random grammars of the front-end checks (extended notation, templates with lookahead flags, token sets) join the pool as
+    # rendered text only: they are compiled here, in sub-processes, so that a process exit is a verdict and not a dead harness
+    gdir = ctx.path("generated")
+    k = "400" if thorough else "120"
+    for kind, extra in (("c13", ["4"]), ("c14", ["4"]), ("c15", [])):
+        g = ctx.path(kind + ".ndjson")
+        ctx.vhrun([kind + "-random", k, g] + extra, env_extra={"VERIF_RENDER_ONLY": "1"})
+        ctx.vhrun(["tm-texts", g, gdir, kind + "_"])
+    ctx.vhrun(["c22-run", str(n), out, os.path.join(vlib.VERIF, "corpus", "C22"), "gen:" + gdir], timeout=3400)
     kw = dict(sig=sig, sigv=sigv, rerun=None, input_keys=["seedFile", "op", "text"], observed_keys=["outcome", "detail", "errs"],
               nontrivial=lambda c: c["outcome"] == "errors" and len(c["errs"]) >= 2)
     # TLC validates in slices to keep the JSON it loads small
